@@ -82,7 +82,7 @@ func containerOf(path string) string {
 }
 
 func runC10(cfg *config, res *monitor.Result) {
-	nvals := 10
+	nvals := 25
 	if cfg.thorough() {
 		nvals = 300
 	}
